@@ -72,7 +72,7 @@ func streamWF(c *Case) *WF {
 
 func init() {
 	Register(&Check{ID: "C17", Level: "exploration",
-		Rule: "one case = one producer/consumer pair connected by an {os:..} port (optionally with a predecessor, a successor, and an ordinary second output of the producer), n=1..3 streamed items with maxConcurrentTasks>=2n, payload 20..300 bytes against a simulated pipe capacity of 16..256 bytes (blocking opens, full-pipe back-pressure, EOF on last close), producer/consumer durations drawn independently, under one tape-chosen schedule; optionally followed by a second run in place. Oracle: consumer output = reference function of the producer's bytes; at RUN-RETURNED no regular file at the streamed path and no .fifo; consumer's audit Upstream names the producer; second run terminates and leaves consumer outputs (inode, mtime, bytes) unchanged. distinct = event-log hash; non-trivial = >=2 tasks, >=1 non-default choice",
+		Rule: "one case = one producer/consumer pair connected by an {os:..} port (optionally with a predecessor, a successor, an ordinary second output of the producer, the streamed path in a directory that does not exist yet), n=1..3 streamed items with maxConcurrentTasks>=2n, payload 20..300 bytes against a simulated pipe capacity of 16..256 bytes (blocking opens, full-pipe back-pressure, EOF on last close), producer/consumer durations drawn independently, under one tape-chosen schedule; optionally followed by a second run in place. Oracle: consumer output = reference function of the producer's bytes; at RUN-RETURNED no regular file at the streamed path and no .fifo; consumer's audit Upstream names the producer; second run terminates and leaves consumer outputs (inode, mtime, bytes) unchanged. distinct = event-log hash; non-trivial = >=2 tasks, >=1 non-default choice",
 		Run: func(c *Case) Verdict {
 			w := streamWF(c)
 			c.Sample = sample(w)
@@ -147,7 +147,7 @@ func init() {
 
 func init() {
 	Register(&Check{ID: "C18", Level: "exploration",
-		Rule: "one case = source (0..6 files; thorough: up to 140, beyond the default buffer) -> optional 1:1 process (durations vary upstream timing) -> StreamToSubStream -> process with a joined in-port {i:x|join:SEP}, SEP in {space , : +}, bufsize in {default,1,2,3} (so the sub-stream is often longer than the buffer), under one tape-chosen schedule. Oracle: exactly one start of the joining process; the member list the command received (split at SEP) names all files of the sub-stream in arrival order, each resolving from the task's working directory to the member file; the literal SEP-joined string appears in the executed script; audit Upstream keys = member paths (full recursive audit comparison); output bytes = reference. distinct = event-log hash; non-trivial = >=2 tasks or >=2 members, >=1 non-default choice",
+		Rule: "one case = source (0..6 files; thorough: up to 140, beyond the default buffer) -> optional 1:1 process (durations vary upstream timing) -> StreamToSubStream -> process with a joined in-port {i:x|join:SEP} (optionally a second joined in-port fed by its own sub-stream, and a second occurrence of the placeholder with a path modifier basename / %.txt / s/a/b/), SEP in {space , : + '.o0,' 'txt+'}, arrival order optionally reversed, bufsize in {default,1,2,3} (so the sub-stream is often longer than the buffer), under one tape-chosen schedule. Oracle: exactly one start of the joining process; the member list the command received (split at SEP) names all files of the sub-stream in arrival order, each resolving from the task's working directory to the member file; the literal SEP-joined string appears in the executed script; audit Upstream keys = member paths (full recursive audit comparison); the modified occurrence has one entry per member, in order, each the modified member path; output bytes = reference. distinct = event-log hash; non-trivial = >=2 tasks or >=2 members, >=1 non-default choice",
 		Run: func(c *Case) Verdict {
 			t := c.Tape
 			w := &WF{Name: "wf", Sources: map[string]string{}}
@@ -179,7 +179,12 @@ func init() {
 				sub2 := addNode(w, Node{Name: "sub2", Kind: KStreamToSub, Ins: []InSpec{{Name: "in", From: []Edge{{srcNode(w, "src1", n2, ""), "out"}}}}, Outs: []OutSpec{{Name: "substream"}}})
 				joinIns = append(joinIns, InSpec{Name: "y", From: []Edge{{sub2, "substream"}}, Join: true, Sep: sep})
 			}
-			j := addNode(w, Node{Name: "join", Kind: KProc, Cores: 1,
+			joinMod := ""
+			if sep != " " && t.Choose(simrt.StGen, 3, 0) == 1 {
+				// the same port a second time, with a path modifier
+				joinMod = []string{"basename", "%.txt", "s/src/SRC/"}[t.Choose(simrt.StGen, 3, 0)]
+			}
+			j := addNode(w, Node{Name: "join", Kind: KProc, Cores: 1, JoinMod: joinMod,
 				Ins:  joinIns,
 				Outs: []OutSpec{{Name: "o0", Pattern: "joined.join.o0"}}})
 			if t.Choose(simrt.StGen, 2, 0) == 1 {
@@ -230,6 +235,36 @@ func init() {
 			}
 			if strings.Join(got, " ") != strings.Join(want, " ") {
 				return Viol("join-members", "", "joined placeholder expanded to %v (resolved from %s: %v); the sub-stream was %v", o.Joined, o.Cwd, got, want)
+			}
+			if joinMod != "" {
+				// with a modifier: still one entry per member, in arrival order, each the
+				// modified member path (resolution is not required of a modified path)
+				nx := 0
+				for _, tk := range ex.Tasks {
+					if tk.Proc == "join" {
+						nx = len(tk.Joined["x"])
+					}
+				}
+				var wantMod []string
+				for _, m := range want[:nx] {
+					rel := strings.TrimPrefix(m, "/work/")
+					switch joinMod {
+					case "basename":
+						rel = rel[strings.LastIndex(rel, "/")+1:]
+					case "%.txt":
+						rel = strings.TrimSuffix(rel, ".txt")
+					case "s/src/SRC/":
+						rel = strings.ReplaceAll(rel, "src", "SRC")
+					}
+					wantMod = append(wantMod, "../"+rel)
+				}
+				gotNote := ""
+				if len(o.Notes) > 0 {
+					gotNote = o.Notes[0]
+				}
+				if nx > 0 && gotNote != strings.Join(wantMod, sep) {
+					return Viol("join-modifier", "", "{i:x|join:%s|%s} expanded to %q; the sub-stream with the modifier applied to each member is %q", sep, joinMod, gotNote, strings.Join(wantMod, sep))
+				}
 			}
 			// per joined port: the members as written, joined by SEP, appear literally in the script
 			off := 0
@@ -570,7 +605,7 @@ func linesOf(b []byte) int { return strings.Count(string(b), "\n") }
 
 func init() {
 	Register(&Check{ID: "C19", Level: "exploration",
-		Rule: "one case = one bundled component in a small tape-generated harness workflow under one tape-chosen schedule (incl. map-iteration order, which decides the combinators' 'head' port): FileCombinator / ParamCombinator with 1..4 ports and stream lengths 0..4 (independent upstreams; or one shared upstream with length <= bufsize) feeding a consuming zip process - every element of the Cartesian product exactly once, ports aligned; IPSelectorSync with 1..4 aligned ports and a tape-chosen predicate mask - exactly the all-true tuples; FileSplitter (files of 0..7 lines, 1..3 lines per split) - recorded parts concatenate to the input, no part longer than the limit; Concatenator - output = inputs in recorded arrival order, each followed by newline; FileGlobber over a generated tree vs an independent glob evaluation; FileToParamsReader / CommandToParams / FileSource / ParamSource - exactly the given items in order. distinct = event-log hash; non-trivial = >=2 tasks, >=1 non-default choice",
+		Rule: "one case = one bundled component in a small tape-generated harness workflow under one tape-chosen schedule (incl. map-iteration order, which decides the combinators' 'head' port): FileCombinator / ParamCombinator with 1..4 ports and stream lengths 0..4 (independent upstreams; or one shared upstream with length <= bufsize) feeding a consuming zip process - every element of the Cartesian product exactly once, ports aligned; IPSelectorSync with 1..4 aligned ports and a tape-chosen predicate mask - exactly the all-true tuples; FileSplitter (files of 0..7 lines, 1..3 lines per split) - recorded parts concatenate to the input, no part longer than the limit; Concatenator (inputs of a few bytes up to 2 MiB + remainder, around common copy-buffer sizes) - output = inputs in recorded arrival order, each followed by newline; FileGlobber over a generated tree vs an independent glob evaluation; FileToParamsReader / CommandToParams / FileSource / ParamSource - exactly the given items in order. distinct = event-log hash; non-trivial = >=2 tasks, >=1 non-default choice",
 		Run: func(c *Case) Verdict {
 			w, kind := componentCase(c)
 			c.Sample = kind + ": " + sample(w)
